@@ -183,10 +183,11 @@ def h_step_fixed(L, keys, op, keylen, vallen):
     return _step(L, items, op, keylen, vallen)
 
 
-NOKEY = {'retain_nonempty', 'retain_mut_append', 'iter_mut_append', 'clear', 'reserve', 'insert_repository_url',
+from .qops import MQ_OPS
+NOKEY = set(MQ_OPS) | {'retain_nonempty', 'retain_mut_append', 'iter_mut_append', 'clear', 'reserve', 'insert_repository_url',
          'get_repository_url', 'contains_repository_url', 'remove_repository_url'}
 WITHVAL = {'insert', 'get_mut_set', 'entry_or_insert', 'entry_or_insert_with', 'entry_and_modify', 'occ_insert', 'occ_get_mut_set', 'occ_into_mut_set', 'vac_insert',
-           'retain_mut_append', 'iter_mut_append', 'index_set', 'insert_repository_url'}
+           'retain_mut_append', 'iter_mut_append', 'index_set', 'insert_repository_url'} | {o for o in MQ_OPS if o.endswith('_insert')}
 
 
 def h_from_iter(L, n, klen, vlen):
